@@ -24,11 +24,11 @@ var capsTLS = []string{"8BITMIME", "AUTH PLAIN LOGIN CRAM-MD5 XOAUTH2 SCRAM-SHA-
 // TimeoutFor: cases in which the server goes silent run with a short timeout, all others must never wait
 func TimeoutFor(c dialx.Case) time.Duration {
 	if c.HS == "stall" || c.Mute >= 0 {
-		return 150 * time.Millisecond
+		return 500 * time.Millisecond
 	}
 	for _, s := range c.Script {
 		if s == "stall" {
-			return 150 * time.Millisecond
+			return 500 * time.Millisecond
 		}
 	}
 	return 3 * time.Second
